@@ -961,3 +961,64 @@ def cross_schema_identity(check: Check, repo: Repo) -> None:
     # type changes are detected through str()/name
     strs = [c for c in ast.walk(mod.tree) if isinstance(c, ast.Compare) and "str(old" in unparse(c) and "str(new" in unparse(c)]
     check.ob(rule, mod.tree.body[0], "type changes detected by printed form", len(strs) >= 4, f"{len(strs)} str(old.type) != str(new.type) comparisons")
+
+
+def oneof_definition_only(check: Check, repo: Repo, rule: str = "EXTEND-BUILD-AGREE") -> None:
+    """Clause of EXTEND-BUILD-AGREE: @oneOf is read from the definition node on both paths."""
+    mod = repo.mod("utilities.extend_schema")
+    bn = _nested(mod.tree, "build_named_type")
+    mp = _nested(mod.tree, "input_object_mapper")
+    if bn is None or mp is None:
+        raise AnalysisError("build_named_type / input_object_mapper missing")
+    calls = [c for c in ast.walk(bn) if isinstance(c, ast.Call) and call_name(c) == "is_one_of"]
+    if not calls:
+        check.ob(rule, bn, "input object: @oneOf read from the definition", False, "build_named_type never calls is_one_of")
+        return
+    mapper_reads = [c for c in ast.walk(mp) if isinstance(c, ast.Call) and call_name(c) == "is_one_of"]
+    for c in calls:
+        in_comp = any(isinstance(a, (ast.GeneratorExp, ast.ListComp, ast.SetComp, ast.For)) for a in _ancestors_until(c, bn))
+        arg = unparse(c.args[0]) if c.args else ""
+        ok = (arg == "ast_node" and not in_comp) or bool(mapper_reads)
+        check.ob(rule, c, "input object: @oneOf is taken from the definition node on the build path, as the extend path keeps the existing flag", ok,
+                 "is_one_of(ast_node)" if ok else
+                 f"build path evaluates is_one_of({arg}) over extension nodes, input_object_mapper never looks at extensions: "
+                 "`extend input X @oneOf` makes build(A+B) OneOf and extend(build(A), B) not")
+
+
+def _ancestors_until(n: ast.AST, stop: ast.AST):
+    p = parent(n)
+    while p is not None and p is not stop:
+        yield p
+        p = parent(p)
+
+
+def root_overwrite(check: Check, repo: Repo, rule: str = "ROOT-OVERWRITE") -> None:
+    from rules.write_effect import top_heads
+    from sa.mtypes import MTypes
+
+    check.rule(
+        rule,
+        "build_ast_schema fills in the conventionally named root types only where it found one: every store "
+        "to schema_kwargs['query' | 'mutation' | 'subscription'] assigns a value whose static type excludes "
+        "None (a type object taken from the loop), so a root that `extend schema { mutation: Changes }` "
+        "already provided is never replaced by 'not found'",
+    )
+    fn = repo.func("utilities.build_ast_schema", "build_ast_schema")
+    mt = MTypes.get(repo)
+    n = 0
+    for s in walk_body(fn):
+        if not (isinstance(s, ast.Assign) and len(s.targets) == 1 and isinstance(s.targets[0], ast.Subscript)):
+            continue
+        t = s.targets[0]
+        if unparse(t.value) != "schema_kwargs" or not (isinstance(t.slice, ast.Constant) and t.slice.value in ("query", "mutation", "subscription")):
+            continue
+        n += 1
+        ty = mt.type_of(s.value)
+        heads = top_heads(ty) if ty else set()
+        maybe_none = "None" in heads or (isinstance(s.value, ast.Call) and any(
+            isinstance(c, ast.Call) and isinstance(c.func, ast.Attribute) and c.func.attr == "get" for c in ast.walk(s.value)))
+        check.ob(rule, s, f"schema_kwargs[{t.slice.value!r}] = {node_text(s.value, 50)}", not maybe_none,
+                 f"value type {ty or 'unknown'} excludes None" if not maybe_none else
+                 f"the assigned value may be None ({ty}): an operation type set by a schema extension is overwritten with 'not found'")
+    if n < 3:
+        raise AnalysisError("build_ast_schema: stores of the conventional root types not found")
